@@ -141,6 +141,21 @@ def o_wif(case):
             _bad("wif:prefix-not-constant", "%s WIF prefix %s for d=%#x but %s for d=1" % (case["net"], prefix.hex(), d, ref_prefix.hex()))
         if wif != refenc.b58check_encode(prefix + tail):
             _bad("wif:text!=base58check", "%s wif %r is not the Base58Check form of %s" % (case["net"], wif, (prefix + tail).hex()))
+        # strictness of the text: the same WIF with one digit written as a character that is NOT a Base58 digit but would
+        # read as the same value under a careless table (its character code equals the digit value; value -1 after a
+        # carry; a look-alike) is not a WIF
+        _B58 = "123456789ABCDEFGHJKLMNPQRSTUVWXYZabcdefghijkmnopqrstuvwxyz"
+        aliases = []
+        for i, ch in enumerate(wif[1:], 1):
+            v = _B58.index(ch)
+            if 32 <= v <= 48 and len(aliases) < 6:
+                aliases.append(wif[:i] + chr(v) + wif[i + 1:])
+            if ch == "z" and wif[i - 1] != "z" and i >= 2 and len(aliases) < 8:
+                aliases.append(wif[:i - 1] + _B58[_B58.index(wif[i - 1]) + 1] + "0" + wif[i + 1:])
+        for bad_text in aliases:
+            if net.parse.wif(bad_text) is not None:
+                _bad("wif:text-with-non-base58-character-accepted", "%s parse.wif(%r) accepted; it is %r with one digit written as a "
+                     "character outside the Base58 alphabet" % (case["net"], bad_text, wif))
         k2 = net.parse.wif(wif)
         if k2 is None:
             _bad("wif:own-output-not-parsed", "%s parse.wif(%r) is None (d=%#x compressed=%r)" % (case["net"], wif, d, flag))
